@@ -57,6 +57,10 @@ def candidates(scn):
         s = S.clone(scn)
         del s['faults'][i]
         yield 'drop fault %d' % i, s
+    for i in range(len(scn.get('ifaults', []) or [])):
+        s = S.clone(scn)
+        del s['ifaults'][i]
+        yield 'drop internal fault %d' % i, s
     # 3. user params
     ups = scn['args']['user_params']
     for i in range(len(ups)):
@@ -157,6 +161,13 @@ def candidates(scn):
             s = S.clone(scn)
             s['faults'][i]['scope'] = 'once'
             yield 'fault %d once' % i, s
+    for i, f in enumerate(scn.get('ifaults', []) or []):
+        if f['at'] > 1:
+            for at in (1, f['at'] // 2, f['at'] - 1):
+                if 1 <= at < f['at']:
+                    s = S.clone(scn)
+                    s['ifaults'][i]['at'] = at
+                    yield 'internal fault %d earlier (%d)' % (i, at), s
     # 7. numbers
     x0 = scn['x0']
     if any(v != 0.0 for v in x0):
